@@ -525,6 +525,9 @@ _COMBINATORS = {
     # three arguments: (x, default, closure)
     "std::result::Result::map_or":         ("result", {0: ("call", None), 1: ("default", None)}),
     "std::option::Option::map_or":         ("option", {0: ("default", None), 1: ("call", None)}),
+    # three arguments: (x, closure for the empty / failing case, closure for the value)
+    "std::option::Option::map_or_else":    ("option", {0: ("unit-call", None), 1: ("call", None)}),
+    "std::result::Result::map_or_else":    ("result", {0: ("call", None), 1: ("call", None)}),
 }
 _VARIANTS = {"result": ("std::result::Result", {0: "Ok", 1: "Err"}), "option": ("std::option::Option", {0: "None", 1: "Some"})}
 
@@ -537,8 +540,11 @@ def _lower_combinator(F, f, raw, blk, t):
     if spec is None or t["to"] < 0 or t["dest"].get("p"):
         return False
     with_default = name.endswith("::map_or")
-    if len(t["args"]) != (3 if with_default else 2):
+    two_closures = name.endswith("::map_or_else")
+    if len(t["args"]) != (3 if (with_default or two_closures) else 2):
         return False
+    if two_closures:
+        return _lower_map_or_else(F, f, raw, blk, t, name, spec)
     if with_default:
         # the closure is the third argument; the rest of this function reads it as the second
         t = dict(t)
@@ -628,6 +634,76 @@ def _lower_combinator(F, f, raw, blk, t):
                 arm_blocks[vi] = new_block(st, {"t": "call", "callee": "std::ops::FnOnce::call_once", "resolved": "std::ops::FnOnce::call_once", "foreign": False, "local": False, "krate": "core",
                                                 "resolved_local": False, "generics": [], "args": [copy.deepcopy(t["args"][1]), {"k": "mv", "pl": {"l": tup}}], "dest": call_dest, "to": after,
                                                 "unwind": "Continue", "ln": ln, "x": False, "lowered": name})
+    unr = new_block([], {"t": "unreachable"})
+    blk["st"] = blk["st"] + [{"s": "assign", "lhs": {"l": scrut}, "rv": {"r": "use", "a": [copy.deepcopy(x)]}, "ln": ln, "x": False},
+                             {"s": "assign", "lhs": {"l": dsc}, "rv": {"r": "discr", "pl": {"l": scrut}, "adt": enum_adt}, "ln": ln, "x": False}]
+    blk["term"] = {"t": "switch", "on": {"k": "mv", "pl": {"l": dsc}}, "arms": [[0, arm_blocks[0]], [1, arm_blocks[1]]], "otherwise": unr, "ln": ln, "lowered": name}
+    return True
+
+
+def _lower_map_or_else(F, f, raw, blk, t, name, spec):
+    """`x.map_or_else(d, c)`: d runs for None / with the error, c with the value; both closures new to the tree (or functions passed by name)"""
+    kind, actions = spec
+    x = t["args"][0]
+    if x["k"] == "c" or x["pl"].get("p"):
+        return False
+    # which argument serves which variant: Option: None -> args[1], Some -> args[2]; Result: Ok -> args[2], Err -> args[1]
+    arg_of = {0: 1, 1: 2} if kind == "option" else {0: 2, 1: 1}
+    cl = {}
+    for vi, ai in arg_of.items():
+        a = t["args"][ai]
+        g = _closure_of_local(F, f, a)
+        fn_item = False
+        if g is None and a.get("k") == "c" and a.get("fn"):
+            g = F.fns.get(a["fn"]) or next((h for h in F.fns.values() if strip_generics(h.path) == strip_generics(a["fn"])), None)
+            fn_item = g is not None
+        if g is None:
+            return False
+        old = not fn_item and (g.path in inventory() or strip_generics(g.path) in inventory()) and not colliding_closure(F, g)
+        cl[vi] = (g, fn_item, a, old)
+    if all(c[3] for c in cl.values()):
+        return False          # both closures are the reference's own: the call stays as it is there
+    cl = {vi: c[:3] for vi, c in cl.items()}
+    blocks, locals_ = raw["blocks"], raw["locals"]
+    src_ty = f.local_ty(x["pl"]["l"])
+    sargs = _split_generic_args(src_ty)
+    enum_adt, vnames = _VARIANTS[kind]
+    ln = t.get("ln")
+    src = blk.get("src")
+
+    def new_local(ty):
+        locals_.append({"i": len(locals_), "t": ty, "adt": ""})
+        return len(locals_) - 1
+
+    def new_block(st, term):
+        blocks.append({"b": len(blocks), "cleanup": False, "src": src, "st": st, "term": term})
+        return len(blocks) - 1
+    scrut = new_local(src_ty)
+    dsc = new_local("isize")
+    exit_to = t["to"]
+    arm_blocks = {}
+    for vi, (act, _w) in actions.items():
+        g, fn_item, carg = cl[vi]
+        has_payload = not (kind == "option" and vi == 0)
+        pty = (sargs[vi] if kind == "result" and len(sargs) == 2 else (sargs[0] if sargs else "?")) if has_payload else "()"
+        st = []
+        if has_payload:
+            pv = new_local(pty)
+            st.append({"s": "assign", "lhs": {"l": pv}, "rv": {"r": "use", "a": [{"k": "mv", "pl": {"l": scrut, "p": [{"v": vi, "n": vnames[vi]}, {"f": 0, "n": "0", "t": pty}]}}]}, "ln": ln, "x": False})
+            tup = new_local("(%s,)" % pty)
+            st.append({"s": "assign", "lhs": {"l": tup}, "rv": {"r": "agg", "kind": {"tuple": True}, "a": [{"k": "mv", "pl": {"l": pv}}]}, "ln": ln, "x": False})
+        else:
+            tup = new_local("()")
+            st.append({"s": "assign", "lhs": {"l": tup}, "rv": {"r": "agg", "kind": {"tuple": True}, "a": []}, "ln": ln, "x": False})
+        dest = copy.deepcopy(t["dest"])
+        if fn_item:
+            arm_blocks[vi] = new_block(st, {"t": "call", "callee": g.path, "resolved": g.path, "foreign": False, "local": True, "krate": "ipc_channel", "resolved_local": True,
+                                            "generics": [], "args": ([{"k": "mv", "pl": {"l": pv}}] if has_payload else []), "dest": dest, "to": exit_to,
+                                            "unwind": "Continue", "ln": ln, "x": False, "lowered": name})
+        else:
+            arm_blocks[vi] = new_block(st, {"t": "call", "callee": "std::ops::FnOnce::call_once", "resolved": "std::ops::FnOnce::call_once", "foreign": False, "local": False, "krate": "core",
+                                            "resolved_local": False, "generics": [], "args": [copy.deepcopy(carg), {"k": "mv", "pl": {"l": tup}}], "dest": dest, "to": exit_to,
+                                            "unwind": "Continue", "ln": ln, "x": False, "lowered": name})
     unr = new_block([], {"t": "unreachable"})
     blk["st"] = blk["st"] + [{"s": "assign", "lhs": {"l": scrut}, "rv": {"r": "use", "a": [copy.deepcopy(x)]}, "ln": ln, "x": False},
                              {"s": "assign", "lhs": {"l": dsc}, "rv": {"r": "discr", "pl": {"l": scrut}, "adt": enum_adt}, "ln": ln, "x": False}]
@@ -1176,11 +1252,210 @@ def scalarise_struct_params(F, allfns):
     return changed
 
 
+def scalarise_tuple_locals(raw):
+    """A tuple built only to be taken apart again (`let (end, result) = match pos { 0 => (a, b), _ => (c, d) }`): when every definition of a tuple-typed temporary
+    is a tuple literal and every other mention reads one field, the temporary is replaced by one local per field, each assigned where the literal was built
+    (scalar replacement of aggregates).  Returns the number of temporaries replaced."""
+    n = 0
+    argc = raw.get("argc", 0)
+    for loc in list(raw["locals"]):
+        l = loc["i"]
+        ty = loc["t"]
+        if l <= argc or not ty.startswith("(") or ty == "()":
+            continue
+        defs = []
+        for blk in raw["blocks"]:
+            for st in blk["st"]:
+                if st.get("s") == "assign" and st["lhs"]["l"] == l and not st["lhs"].get("p"):
+                    defs.append(st)
+        if not defs or any(st["rv"]["r"] != "agg" or "tuple" not in (st["rv"].get("kind") or {}) for st in defs):
+            continue
+        k = len(defs[0]["rv"]["a"])
+        if k == 0 or any(len(st["rv"]["a"]) != k for st in defs):
+            continue
+        whole = [0]
+        ok = [True]
+        ftypes = {}
+
+        def probe(pl):
+            if pl["l"] == l:
+                pr = pl.get("p") or []
+                if not pr:
+                    whole[0] += 1
+                elif not isinstance(pr[0], dict) or "f" not in pr[0] or pr[0]["f"] >= k:
+                    ok[0] = False
+                elif pr[0].get("t"):
+                    ftypes[pr[0]["f"]] = pr[0]["t"]
+            for e in pl.get("p") or []:
+                if isinstance(e, dict) and e.get("i") == l:
+                    ok[0] = False
+            return pl
+        _each_place(raw, probe)
+        if not ok[0] or whole[0] != len(defs):
+            continue
+        for i in range(k):
+            if i not in ftypes:
+                for st in defs:
+                    a = st["rv"]["a"][i]
+                    if a.get("k") == "c" and a.get("t"):
+                        ftypes[i] = a["t"]
+                    elif a.get("k") in ("cp", "mv") and not a["pl"].get("p") and a["pl"]["l"] < len(raw["locals"]):
+                        ftypes[i] = raw["locals"][a["pl"]["l"]]["t"]
+        base = len(raw["locals"])
+        for i in range(k):
+            raw["locals"].append({"i": base + i, "t": re.sub(r"'[a-z_]+ ", "", ftypes.get(i, "?")), "adt": ""})
+        for blk in raw["blocks"]:
+            out = []
+            for st in blk["st"]:
+                if any(st is d for d in defs):
+                    for i, a in enumerate(st["rv"]["a"]):
+                        out.append({"s": "assign", "lhs": {"l": base + i}, "rv": {"r": "use", "a": [a]}, "ln": st.get("ln"), "x": st.get("x", False)})
+                else:
+                    out.append(st)
+            blk["st"] = out
+
+        def rewrite(pl):
+            if pl["l"] == l and pl.get("p"):
+                out = {"l": base + pl["p"][0]["f"]}
+                if pl["p"][1:]:
+                    out["p"] = pl["p"][1:]
+                return out
+            return pl
+        _each_place(raw, rewrite)
+        n += 1
+    return n
+
+
 def _tls_type(t, key_ty):
     g = t.get("generics", [])
     if g:
         return g[0]
     return key_ty
+
+
+def thread_decisions(raw):
+    """A decision that was stored in a `bool` local and tested at a join (`let ok = a && b(); if !ok { return }`, `matches!` written ahead of its use, the
+    result of a combinator closure): the test is moved into each predecessor, where the value is a constant or the result of one particular call -- so that the
+    edges out of it carry the facts the rules read (jump threading; the join block stays for the predecessors that do not qualify).  Returns the number of edges threaded."""
+    blocks = raw["blocks"]
+    n = 0
+    # edges through empty forwarding blocks are taken to their end first
+    def _is_test(b):
+        if not (0 <= b < len(blocks)) or blocks[b]["cleanup"]:
+            return False
+        tj = blocks[b]["term"]
+        if tj["t"] != "switch" or tj["on"].get("k") not in ("cp", "mv") or tj["on"]["pl"].get("p"):
+            return False
+        r = tj["on"]["pl"]["l"]
+        return r < len(raw["locals"]) and raw["locals"][r]["t"] == "bool"
+
+    def _end(b0, seen=()):
+        # (only towards the test of a stored decision: an empty block on the way to anything else may be all that tells one edge of a branch from another)
+        b = b0
+        while 0 <= b < len(blocks) and b not in seen and not blocks[b]["st"] and blocks[b]["term"]["t"] == "goto" and not blocks[b]["cleanup"]:
+            seen = seen + (b,)
+            b = blocks[b]["term"]["to"]
+        return b if _is_test(b) else b0
+    for blk in blocks:
+        t = blk["term"]
+        if blk["cleanup"]:
+            continue
+        if t["t"] == "goto":
+            t["to"] = _end(t["to"])
+        elif t["t"] == "switch":
+            t["arms"] = [[v, _end(tb)] for v, tb in t["arms"]]
+            t["otherwise"] = _end(t["otherwise"])
+        elif isinstance(t.get("to"), int) and t["to"] >= 0:
+            t["to"] = _end(t["to"])
+    preds = {}
+    for bi, blk in enumerate(blocks):
+        t = blk["term"]
+        if t["t"] == "goto":
+            preds.setdefault(t["to"], []).append(bi)
+        elif t["t"] == "switch":
+            for _v, tb in t["arms"]:
+                preds.setdefault(tb, []).append(bi)
+            preds.setdefault(t["otherwise"], []).append(bi)
+        elif t.get("to") is not None and isinstance(t.get("to"), int) and t["to"] >= 0:
+            preds.setdefault(t["to"], []).append(bi)
+    for ji, J in enumerate(blocks):
+        tj = J["term"]
+        if J["cleanup"] or tj["t"] != "switch" or tj["on"].get("k") not in ("cp", "mv") or tj["on"]["pl"].get("p"):
+            continue
+        r = tj["on"]["pl"]["l"]
+        if r >= len(raw["locals"]) or raw["locals"][r]["t"] != "bool":
+            continue
+        # the join may first copy the flag (`_t = _r; switch(_t)`) or negate it
+        neg = False
+        ok_join = True
+        cur = r
+        for st in reversed(J["st"]):
+            if st.get("s") != "assign" or st["lhs"].get("p"):
+                ok_join = False
+                break
+            rv = st["rv"]
+            if st["lhs"]["l"] == cur:
+                src = rv["a"][0] if rv["r"] in ("use",) or (rv["r"] == "un" and rv.get("op") == "Not") else None
+                if src is None or src.get("k") not in ("cp", "mv") or src["pl"].get("p"):
+                    ok_join = False
+                    break
+                if rv["r"] == "un":
+                    neg = not neg
+                cur = src["pl"]["l"]
+            else:
+                ok_join = False
+                break
+        if not ok_join:
+            continue
+        flag = cur
+        if flag >= len(raw["locals"]) or raw["locals"][flag]["t"] != "bool":
+            continue
+        # walk the statements in reverse: `cur` above is the local read first in J, i.e. the one predecessors assign
+        ps = [p for p in preds.get(ji, []) if not blocks[p]["cleanup"]]
+        if len(ps) < 2:
+            continue
+        arms = {int(v): tb for v, tb in tj["arms"]}
+        def target(val):
+            val = (not val) if neg else bool(val)
+            return arms.get(1 if val else 0, tj["otherwise"])
+        for p in ps:
+            P = blocks[p]
+            if P["term"]["t"] == "call" and P["term"].get("to") == ji and not P["term"]["dest"].get("p") and P["term"]["dest"]["l"] == flag:
+                # the flag is the result of a call made in P (`ok = helper(..)`): the call writes a value of its own, which is tested; the flag gets a copy
+                nl = len(raw["locals"])
+                raw["locals"].append({"i": nl, "t": "bool", "adt": ""})
+                nb = len(blocks)
+                import copy as _copy
+                blocks.append({"b": nb, "cleanup": False, "src": P.get("src"), "st": [{"s": "assign", "lhs": {"l": flag}, "rv": {"r": "use", "a": [{"k": "cp", "pl": {"l": nl}}]}, "ln": P["term"].get("ln"), "x": False}]
+                               + _copy.deepcopy(J["st"]),
+                               "term": {"t": "switch", "on": {"k": "cp", "pl": {"l": nl}}, "arms": [[0, target(0)]], "otherwise": target(1), "ln": tj.get("ln"), "threaded": True}})
+                P["term"] = dict(P["term"], dest={"l": nl}, to=nb)
+                n += 1
+                continue
+            if P["term"]["t"] != "goto":
+                continue
+            # the last assignment to the flag in P
+            last = None
+            for st in P["st"]:
+                if st.get("s") == "assign" and st["lhs"]["l"] == flag and not st["lhs"].get("p"):
+                    last = st
+            if last is None:
+                continue
+            rv = last["rv"]
+            if rv["r"] == "use" and rv["a"][0].get("k") == "c" and isinstance(rv["a"][0].get("v"), int):
+                P["term"] = {"t": "goto", "to": target(rv["a"][0]["v"]), "ln": P["term"].get("ln"), "threaded": True}
+                n += 1
+            elif not neg and not J["st"] and last is P["st"][-1] and (
+                    (rv["r"] == "use" and rv["a"][0].get("k") in ("cp", "mv") and not rv["a"][0]["pl"].get("p")) or rv["r"] in ("bin", "un")):
+                # the flag is a copy of another value computed in P (a call result), or a comparison made in P: test that value here, under a name of its own
+                # (the flag has several definitions; the copy has one, so the edges out of P can be read)
+                import copy as _copy
+                nl = len(raw["locals"])
+                raw["locals"].append({"i": nl, "t": "bool", "adt": ""})
+                P["st"] = P["st"] + [{"s": "assign", "lhs": {"l": nl}, "rv": _copy.deepcopy(rv) if rv["r"] != "use" else {"r": "use", "a": [{"k": "cp", "pl": {"l": rv["a"][0]["pl"]["l"]}}]}, "ln": last.get("ln"), "x": False}]
+                P["term"] = {"t": "switch", "on": {"k": "mv", "pl": {"l": nl}}, "arms": [list(a) for a in tj["arms"]], "otherwise": tj["otherwise"], "ln": tj.get("ln"), "threaded": True}
+                n += 1
+    return n
 
 
 class InlinedFacts:
@@ -1215,7 +1490,12 @@ class InlinedFacts:
                                        or (gf.parent or "") in nt):
                     self.consumed.add(g)
         self.scalarised = scalarise_struct_params(F, allfns)
-        if self.scalarised:
+        threaded = 0
+        for f_ in allfns.values():
+            threaded += scalarise_tuple_locals(f_.raw)
+            threaded += thread_decisions(f_.raw)
+        self.threaded = threaded
+        if self.scalarised or threaded:
             allfns = {p: Fn(f.raw, self) for p, f in allfns.items()}
         self.fns = {p: f for p, f in allfns.items() if p not in self.consumed}
         self.all_fns = allfns
